@@ -63,6 +63,52 @@ pub struct Q {
     /// this index (used by the native counterexample search when a verifier counterexample over
     /// uninterpreted primitives does not reproduce)
     pub palette: bool,
+    /// exhaustive mode (`exmex_replay --exhaust`): every draw is a digit of an odometer over ALL draw sequences.
+    /// `choice(n)` / `bool` / `range_usize` range over their whole domain, typed payload draws over the first
+    /// `payload_radix` palette values.  A run in this mode equals the palette-mode run on the digit string.
+    pub en: Option<Enumerator>,
+}
+#[derive(Default)]
+pub struct Enumerator {
+    pub digits: Vec<u8>,
+    pub radix: Vec<u8>,
+    pub pos: usize,
+    pub payload_radix: u8,
+    /// the byte string on which a palette-mode replay makes exactly the draws of the current run
+    pub replay: Vec<u8>,
+}
+impl Enumerator {
+    fn next(&mut self, n: usize) -> usize {
+        let n = n.clamp(1, 255) as u8;
+        let d = if self.pos < self.digits.len() {
+            self.radix[self.pos] = n;
+            self.digits[self.pos] % n
+        } else {
+            self.digits.push(0);
+            self.radix.push(n);
+            0
+        };
+        self.pos += 1;
+        self.replay.push(d);
+        d as usize
+    }
+    /// advance to the next draw sequence (depth-first; a run that stopped early — rejected pre-condition —
+    /// prunes every continuation of its prefix).
+    pub fn advance(&mut self) -> bool {
+        self.digits.truncate(self.pos);
+        self.radix.truncate(self.pos);
+        self.pos = 0;
+        self.replay.clear();
+        while let Some(d) = self.digits.pop() {
+            let r = self.radix.pop().unwrap();
+            if (d as u16) + 1 < r as u16 {
+                self.digits.push(d + 1);
+                self.radix.push(r);
+                return true;
+            }
+        }
+        false
+    }
 }
 pub const PAL_F64: [f64; 28] = [0.0, -0.0, 1.0, -1.0, 0.5, -0.5, 1.5, -1.5, 2.5, -2.5, 2.0, 3.0, 1e10, -1e10, 2147483648.0, -2147483649.0,
     5e-324, f64::MAX, f64::MIN, f64::INFINITY, f64::NEG_INFINITY, f64::NAN, 0.49999999999999994, 1e-7, 9007199254740993.0, std::f64::consts::PI, 9223372036854775808.0, 4503599627370497.0];
@@ -73,14 +119,25 @@ pub const PAL_I64: [i64; 18] = [0, 1, -1, 2, -2, 3, 20, 21, 63, 64, i64::MIN, i6
 pub const PAL_U64: [u64; 12] = [0, 1, 2, 3, 62, 63, 64, 65, 127, 128, u64::MAX, u64::MAX - 1];
 impl Q {
     pub fn new(b: &[u8]) -> Q {
-        Q { bytes: b.iter().copied().collect(), exhausted: false, covered: vec![], palette: false }
+        Q { bytes: b.iter().copied().collect(), exhausted: false, covered: vec![], palette: false, en: None }
     }
     pub fn new_palette(b: &[u8]) -> Q {
-        Q { bytes: b.iter().copied().collect(), exhausted: false, covered: vec![], palette: true }
+        Q { bytes: b.iter().copied().collect(), exhausted: false, covered: vec![], palette: true, en: None }
     }
-    fn idx(&mut self, n: usize) -> usize { self.take::<1>()[0] as usize % n }
+    pub fn new_enumerating(e: Enumerator) -> Q {
+        Q { bytes: Default::default(), exhausted: false, covered: vec![], palette: true, en: Some(e) }
+    }
+    fn idx(&mut self, n: usize) -> usize {
+        if let Some(e) = &mut self.en { let r = (e.payload_radix as usize).min(n); return e.next(r); }
+        self.take::<1>()[0] as usize % n
+    }
+    fn byte(&mut self, n: usize) -> u8 {
+        if let Some(e) = &mut self.en { return e.next(n) as u8; }
+        self.take::<1>()[0]
+    }
     fn take<const N: usize>(&mut self) -> [u8; N] {
         let mut a = [0u8; N];
+        if let Some(e) = &mut self.en { e.replay.extend_from_slice(&a); return a; }
         for x in a.iter_mut() {
             match self.bytes.pop_front() {
                 Some(b) => *x = b,
@@ -104,13 +161,19 @@ impl Src for Q {
     }
     // natively a choice never rejects: the byte is reduced modulo n (identity on Kani's counterexamples,
     // where the drawn value already satisfies the assumption)
-    fn choice(&mut self, n: u8) -> u8 { self.take::<1>()[0] % n }
+    fn choice(&mut self, n: u8) -> u8 { self.byte(n as usize) % n }
     fn range_usize(&mut self, lo: usize, hi: usize) -> usize {
+        if let Some(e) = &mut self.en {
+            // palette-mode replay reads the value itself from one byte
+            let v = lo + e.next(hi - lo + 1);
+            *e.replay.last_mut().unwrap() = v.min(255) as u8;
+            return v;
+        }
         let c = if self.palette { self.take::<1>()[0] as usize } else { usize::from_le_bytes(self.take()) };
         if c >= lo && c <= hi { c } else { lo + c % (hi - lo + 1) }
     }
-    fn u8(&mut self) -> u8 { self.take::<1>()[0] }
-    fn bool(&mut self) -> bool { self.take::<1>()[0] & 1 == 1 }
+    fn u8(&mut self) -> u8 { self.byte(255) }
+    fn bool(&mut self) -> bool { self.byte(2) & 1 == 1 }
     fn u16(&mut self) -> u16 { u16::from_le_bytes(self.take()) }
     fn i32(&mut self) -> i32 { if self.palette { PAL_I32[self.idx(PAL_I32.len())] } else { i32::from_le_bytes(self.take()) } }
     fn u32(&mut self) -> u32 { if self.palette { PAL_U64[self.idx(PAL_U64.len())] as u32 } else { u32::from_le_bytes(self.take()) } }
